@@ -419,10 +419,21 @@ class Tr:
                         raise Unsupported('statement before first case')
                     cur[1].append(st)
 
+            def unbrace(sts):
+                # `case X: { ...; break; }` — a braced case body whose last statement is the break: read it as its statements
+                out = []
+                for st in sts:
+                    inner = st.get('inner', []) if st['kind'] == 'CompoundStmt' else None
+                    if inner and inner[-1]['kind'] == 'BreakStmt':
+                        out.extend(unbrace(inner))
+                    else:
+                        out.append(st)
+                return out
+
             def case_body(i):
                 acc = []
                 for j in range(i, len(cases)):
-                    for st in cases[j][1]:
+                    for st in unbrace(cases[j][1]):
                         if st['kind'] == 'BreakStmt':
                             return self.stmts(acc, cont)
                         acc.append(st)
@@ -469,6 +480,21 @@ class Tr:
                 if n2 in self.unit.get('globals', ()) and len(s['inner']) == 1:
                     self.uses_this = True; self.mutates = True
                     return '(bind (call_g_%s st) (fun st =>\n %s))' % (n2, cont())
+            if kind == 'CallExpr' and name in self.unit.get('out_calls', {}):
+                # unit option out_calls {function: [argument positions that are output references]} (C06):
+                #   f(a, o1, o2);   ==>   let '(v_o1, v_o2) := c_f_<number of inputs> a in ...
+                idxs = list(self.unit['out_calls'][name]); cargs = s['inner'][1:]
+                outs = []
+                for i in idxs:
+                    o = cargs[i]
+                    while o['kind'] in TRANSPARENT:
+                        o = o['inner'][0]
+                    if o['kind'] != 'DeclRefExpr' or o['referencedDecl']['name'] not in self.locals:
+                        raise Unsupported('out_calls: output argument of %s is not a local variable' % name)
+                    outs.append('v_' + o['referencedDecl']['name'])
+                ins = [self.expr(a) for i, a in enumerate(cargs) if i not in idxs and a['kind'] != 'CXXDefaultArgExpr']
+                pat = ("'(%s)" % ', '.join(outs)) if len(outs) > 1 else outs[0]
+                return '(let %s := %s%s in\n %s)' % (pat, self.callname('c', name, len(ins)), ''.join(' ' + a for a in ins) if ins else ' tt', cont())
             if name in ('assert', '__assert_fail', 'ignore_unused_variable_warning') or name in self.unit.get('skip_calls', ()):
                 # unit option skip_calls: argument-checking helpers that only throw (the unit's theorems carry the guard as a hypothesis)
                 return cont()
@@ -499,6 +525,16 @@ class Tr:
                 while b['kind'] in TRANSPARENT:
                     b = b['inner'][0]
                 acc.add('st' if b['kind'] == 'CXXThisExpr' else ('v_' + b['referencedDecl']['name'] if b['kind'] == 'DeclRefExpr' else '?'))
+        if k == 'CallExpr' and self.unit.get('out_calls'):
+            c0 = n['inner'][0]
+            while c0['kind'] in TRANSPARENT:
+                c0 = c0['inner'][0]
+            nm0 = (c0.get('referencedDecl') or {}).get('name', '')
+            for i in self.unit['out_calls'].get(nm0, ()):
+                o = n['inner'][1:][i]
+                while o['kind'] in TRANSPARENT:
+                    o = o['inner'][0]
+                acc.add('v_' + o['referencedDecl']['name'] if o['kind'] == 'DeclRefExpr' else '?')
         if k == 'CXXMemberCallExpr' and qt(n) == 'void':
             b = n['inner'][0]['inner'][0]
             while b['kind'] in TRANSPARENT:
